@@ -86,7 +86,8 @@ func (c *CDCServer) getCDCHandler() http.Handler {
 			metrics.TaskRequestCountVec.WithLabelValues(metrics.UnknownTypeLabel, metrics.UnmarshalErrorStatusLabel).Inc()
 			return
 		}
-		metrics.TaskRequestCountVec.WithLabelValues(cdcRequest.RequestType, metrics.TotalStatusLabel).Inc()
+		requestTypeLabel := getRequestTypeLabel(cdcRequest.RequestType)
+		metrics.TaskRequestCountVec.WithLabelValues(requestTypeLabel, metrics.TotalStatusLabel).Inc()
 
 		response := c.handleRequest(cdcRequest, writer)
 
@@ -103,10 +104,19 @@ func (c *CDCServer) getCDCHandler() http.Handler {
 				Data: m,
 			}
 			_ = json.NewEncoder(writer).Encode(realResp)
-			metrics.TaskRequestCountVec.WithLabelValues(cdcRequest.RequestType, metrics.SuccessStatusLabel).Inc()
-			metrics.TaskRequestLatencyVec.WithLabelValues(cdcRequest.RequestType).Observe(float64(time.Since(startTime).Milliseconds()))
+			metrics.TaskRequestCountVec.WithLabelValues(requestTypeLabel, metrics.SuccessStatusLabel).Inc()
+			metrics.TaskRequestLatencyVec.WithLabelValues(requestTypeLabel).Observe(float64(time.Since(startTime).Milliseconds()))
 		}
 	})
+}
+
+// getRequestTypeLabel returns the metric label of a request type. Only the known request types are used as label
+// values: the type is supplied by the caller, and the metrics library panics on a label value that is not valid UTF-8.
+func getRequestTypeLabel(requestType string) string {
+	if _, ok := requestHandlers[requestType]; ok {
+		return requestType
+	}
+	return metrics.UnknownTypeLabel
 }
 
 func (c *CDCServer) handleError(w http.ResponseWriter, error string, code int, fields ...zap.Field) {
